@@ -15,7 +15,7 @@ sys.path.insert(0, str(VERIF))
 REPO = pathlib.Path("/repo")
 
 
-def rename_template(env, N, source: str, name: str):
+def rename_template(env, N, source: str, name: str, other_templates_text: str = ""):
     ast = env.parse(source)
     targets = set()
     banned = set()
@@ -25,8 +25,10 @@ def rename_template(env, N, source: str, name: str):
     for n in ast.find_all(N.For):
         for x in [n.target] if isinstance(n.target, N.Name) else list(n.target.find_all(N.Name)):
             targets.add(x.name)
+    private_macros = {m.name for m in ast.find_all(N.Macro) if m.name.startswith("_")}
     for m in ast.find_all(N.Macro):
-        banned.add(m.name)
+        if m.name not in private_macros:
+            banned.add(m.name)
     # macro parameters: renamed too, when every occurrence of the name in the file lies inside a macro that has it as a parameter
     # or binds it locally (calls pass them by position; a name that is also passed as a keyword is banned below)
     params = {a.name for m in ast.find_all(N.Macro) for a in m.args}
@@ -68,6 +70,8 @@ def rename_template(env, N, source: str, name: str):
                 banned.add(x.name)
     banned |= {"loop", "self", "varargs", "kwargs", "caller", "T", "options", "true", "false", "none", "True", "False", "None"}
     names = {t for t in targets - banned if not t.startswith("_")}
+    # private macros (never imported by another template) are renamed as well: definition and call sites
+    names |= {m for m in private_macros - banned if m not in other_templates_text}
     if not names:
         return source, 0
     out = []
@@ -107,7 +111,8 @@ def main(dest: str, keep: bool) -> int:
         n_files += 1
         src = p.read_text(encoding="utf-8")
         try:
-            new, cnt = rename_template(env, b.nodes, src, p.name)
+            others = "\n".join(q.read_text(encoding="utf-8") for q in p.parent.glob("*.j2") if q != p)
+            new, cnt = rename_template(env, b.nodes, src, p.name, others)
             if cnt:
                 env.parse(new)
         except Exception as e:
